@@ -120,15 +120,20 @@ def make_params(cfg, idnt):
         # finite bounds on the contact point that stay inactive
         cpv = params["contact_point"].value
         params["contact_point"].set(min=cpv - 4e-6, max=cpv + 4e-6)
+    elif pat == "cpactive":
+        # a lower bound on the contact point that the fit runs into
+        cpv = params["contact_point"].value
+        params["contact_point"].set(value=cpv + 2e-7, min=cpv + 1e-7,
+                                    max=cpv + 4e-6)
     elif pat == "varyR" and "R" in params:
         params["R"].set(vary=True, min=1e-6, max=1e-4)
     return params
 
 
-def few_points_interval(idnt, segment, npts):
+def few_points_interval(idnt, segment, npts, axis="tip position"):
     """an absolute interval that contains exactly `npts` samples of the
     segment, deepest first"""
-    x = np.asarray(idnt["tip position"])[np.asarray(idnt["segment"]) == segment]
+    x = np.asarray(idnt[axis])[np.asarray(idnt["segment"]) == segment]
     xs = np.sort(x)
     if npts <= 0:
         return [float(xs[0]) - 2e-9, float(xs[0]) - 1e-9]
@@ -154,15 +159,24 @@ def run_config(cfg):
             out["fits"].append(rec)
             return out
         idnt = make_fit_curve(cfg)
+        if cfg.get("x_axis"):
+            # where the contact is on this abscissa
+            seg0 = np.asarray(idnt["segment"]) == 0
+            tipa = np.asarray(idnt["tip position"])[seg0]
+            cfg["_off"] = float(np.asarray(idnt[cfg["x_axis"]])[seg0][
+                int(np.argmin(np.abs(tipa)))])
         kw = dict(model_key=cfg["model"], segment=cfg["segment"],
                   weight_cp=cfg["weight_cp"], gcf_k=cfg["k"],
                   params_initial=make_params(cfg, idnt))
+        if cfg.get("x_axis"):
+            kw["x_axis"] = cfg["x_axis"]
         mode = cfg["mode"]
         if mode == "abs":
             iv = cfg["interval"]
             if isinstance(iv, str) and iv.startswith("few"):
                 kw["range_x"] = few_points_interval(
-                    idnt, cfg["segment"], int(iv[3:]))
+                    idnt, cfg["segment"], int(iv[3:]),
+                    cfg.get("x_axis") or "tip position")
             else:
                 kw["range_x"] = shifted(cfg, iv) if iv[0] != iv[1] \
                     else list(iv)
@@ -190,14 +204,19 @@ def run_config(cfg):
             try:
                 with warnings.catch_warnings():
                     warnings.simplefilter("ignore")
+                    # (also another weighting distance: whatever survives
+                    # from this fit is then visibly not the requested one)
                     idnt.fit_model(**dict(kw, range_x=near,
+                                          weight_cp=(0 if cfg["weight_cp"]
+                                                     else 5e-7),
                                           params_initial=make_params(cfg,
                                                                      idnt)))
             except BaseException as exc:
                 if isinstance(exc, (KeyboardInterrupt, SystemExit)):
                     raise
         rec = fitpasses.observe_fit(idnt, kw, label=json.dumps(cfg),
-                                    post=cfg.get("post"))
+                                    post=cfg.get("post"),
+                                    fault=bool(cfg.get("fault")))
         out["fits"].append(rec)
         if cfg.get("pair") and not rec["raised"] and cfg["k"] != 1:
             cfg1 = dict(cfg, k=1.0)
@@ -280,7 +299,8 @@ def fit_lattice(tier, rng, focus):
                    weight_cp=rng.choice([0, 5e-7, 1e-6]),
                    vary=rng.choice(["default", "default", "fixE", "fixcp",
                                     "fixbl", "boundE", "expr", "varyR",
-                                    "exprE", "exprEL", "cpbound"]),
+                                    "exprE", "exprEL", "cpbound",
+                                    "cpactive"]),
                    cp_init=rng.choice([None, 1e-7, -5e-8]),
                    n_app=rng.choice([300, 300, 700]))
         if mode == "abs":
@@ -289,7 +309,11 @@ def fit_lattice(tier, rng, focus):
             cfg["interval"] = rng.choice(INTERVALS_REL)
         else:
             cfg["interval"] = rng.choice([[0, 0], [-np.inf, 2e-7],
-                                          [2e-7, -np.inf], [-5e-7, 1e-7]])
+                                          [2e-7, -np.inf], [-5e-7, 1e-7],
+                                          # upper bound inside the scanned
+                                          # depths (given either way round)
+                                          [-np.inf, -7e-8], [-7e-8, -1.0],
+                                          [-3e-7, -np.inf]])
             cfg["nsamp"] = rng.choice([8, 10])
         if mode != "edelta" and rng.random() < (.5 if focus == "C11" else .25):
             cfg["pipe"] = "P0"
@@ -301,6 +325,16 @@ def fit_lattice(tier, rng, focus):
             cfg["method"] = "nelder"
         if mode == "abs" and rng.random() < .3:
             cfg["prefit"] = rng.choice([8e-9, 3e-9, 5e-8])
+            if rng.random() < .5:
+                cfg["fault"] = True
+        elif rng.random() < .08:
+            cfg["fault"] = True
+        if mode != "edelta" and not cfg.get("pipe") and rng.random() < \
+                (.3 if focus == "C11" else .1):
+            # another abscissa (legal; the contact point is far from zero)
+            cfg["x_axis"] = "height (measured)"
+            if mode == "abs":
+                cfg["interval"] = rng.choice([[0, 0], "few5", "few6"])
         if focus == "C11" or rng.random() < .25:
             # k-equivalence is owed exactly for noise-free data, and for
             # noisy data with contact-point weighting off
@@ -456,7 +490,7 @@ def fingerprint(c):
     return "fit:" + ",".join(f"{k}={c[k]}" for k in
                              ("curve", "model", "segment", "mode", "interval",
                               "k", "weight_cp", "vary", "cp_init", "noise",
-                              "pipe", "post")
+                              "pipe", "post", "fault", "x_axis")
                              if k in c)
 
 
